@@ -25,6 +25,11 @@ def cells(tier):
                 or (q and rn != "A2" and dn in heavy and (len(o) > 1 or cn == "slowecb")))
     out += grid(MON, [1, 2], ["A2|M3/2"], light + (["cgroupM"] if not q else []), ["plain"], [["ret"]] if q else [["ret", "exc"]])
     out += grid(MON, [1] if q else [1, 2], ["A2|M3/2"], ["cancel0+flush", "call+flush"], ["slowccb"] if q else ["plain", "slowccb", "slowecb"], [["ret"]])
+    for size in [1, 2]:
+        sc = scen(pool(size, name="np"), [[A("A", 2)], [["cancel", rid("A", 0), {"msg": "m"}]], [["cancel_all", {"msg": "n"}]]], outcomes=["ret"], ecb="amethod", ccb="method")
+        out.append(cell(f"s{size} named pool A2 cancel0(msg) call(msg) method-cbs", sc, MON))
+        sc = scen([pool(size), pool(1)], [[A("A", 2)], [A("B", 2, p=1)], [cancel(rid("A", 0))], [["cancel_all", {"p": 1}]]], outcomes=["ret"], ecb="plain", ccb="plain")
+        out.append(cell(f"two pools s{size}/1 A2|B2@1 cancelA0 call@1", sc, MON))
     for size in [2, 3]:
         for fl in (FLUSH, FLUSH_RE):
             sc = scen(pool(size), [[A("A", 3)], [cancel(rid("A", 0))], [fl]], outcomes=["ret", "exc"], ecb="plain", ccb="slow", slow_ids=[0])
